@@ -90,9 +90,10 @@ class Ctx:
     def violation(self, key: str, what: str, witness) -> None:
         """A concrete input on which the *real code* breaks the property. `key` is a specific,
         stable class identifier matched against known_findings.jsonl."""
-        if len(self.violations) < 200:
-            self.violations.append({'key': key, 'what': what, 'witness': witness})
+        # keep at most 5 witnesses per key so that a frequent (e.g. known) class cannot crowd out another
         self.count('violation:' + key)
+        if self.hist['violation:' + key] <= 5 and len(self.violations) < 400:
+            self.violations.append({'key': key, 'what': what, 'witness': witness})
 
     def note(self, msg: str) -> None:
         self.notes.append(msg)
